@@ -29,10 +29,15 @@
 // only at the end, io.EOF when short), two reads of one range through one open Reader are
 // equal, and a Reader that is kept open still yields the same bytes later.
 //
-// Race build at top level (BUILDS: race, top=race): the race detector is the direct monitor
-// for "a buffer that is being recycled". Per AUTHORING rule 4 the operation path takes no
-// harness lock and touches no shared atomic except the per-writer commit stamp: scripts and
-// writer plans are immutable during a round, counters/logs are per goroutine.
+// Process structure (BUILDS: plain, race): the plain top process only schedules; the workload
+// runs in children of the race build, 17 rounds (= every configuration once) per child,
+// because a broken cache can also kill the process (see body). The race detector is the
+// direct monitor for "a buffer that is being recycled"; reports are attributed to functions
+// in cache. and util/cacheutil. (plus: races between two harness goroutines on memory that
+// only the cache can have handed to both). Per AUTHORING rule 4 the operation path takes no
+// harness lock and touches no shared atomic except the per-writer commit stamp (and one
+// eviction counter per LRU, incremented under that LRU's own mutex): scripts and writer
+// plans are immutable during a round, counters/logs are per goroutine.
 package main
 
 import (
@@ -979,8 +984,9 @@ func (g *gstate) run() {
 // ---------------------------------------------------------------------------
 // round driver
 
-// drainBudget: total wall time the run may still spend waiting for asynchronous commits.
-var drainBudget = 60 * time.Second
+// drainBudget: total wall time this (child) process may still spend waiting for
+// asynchronous commits; on a healthy tree a round drains within milliseconds.
+var drainBudget = 20 * time.Second
 
 // cpuMillis: user+system CPU time of this process (rounds run one after the other).
 func cpuMillis() int64 {
@@ -1056,7 +1062,7 @@ func runRound(r *vf.Run, rd *round, bufs [][]byte) (goOn bool) {
 	drained := true
 	if dir != "" {
 		want := int(tot[cCloseOnly])
-		limit := 10 * time.Second
+		limit := 5 * time.Second
 		if drainBudget < limit {
 			limit = drainBudget
 		}
